@@ -254,6 +254,49 @@ func genSqlEscape(c *ctx) error {
 	c.defStringList("tupleLits", stringLits(tp))
 	c.defNatList("tupleRunes", byteLits(tp))
 
+	// CSV export / import field layer
+	const cw = "go/libraries/doltcore/table/untyped/csv/writer.go"
+	wf, err := c.file(cw)
+	if err != nil {
+		return err
+	}
+	fq := findFunc(wf, "", "fieldNeedsQuotes")
+	wr := findFunc(wf, "", "writeCsvRow")
+	if fq == nil || wr == nil {
+		return fmt.Errorf("%s: fieldNeedsQuotes / writeCsvRow not found", cw)
+	}
+	c.defStringList("csvNeedsQuotesCalls", callNames(fq))
+	c.defStringList("csvNeedsQuotesLits", stringLits(fq))
+	c.defStringList("csvWriteRowLits", stringLits(wr))
+	const cr = "go/libraries/doltcore/table/untyped/csv/reader.go"
+	rf2, err := c.file(cr)
+	if err != nil {
+		return err
+	}
+	rr := findFunc(rf2, "CSVReader", "csvReadRecords")
+	cpf := findFunc(rf2, "CSVReader", "parseField")
+	pq := findFunc(rf2, "CSVReader", "parseQuotedField")
+	if rr == nil || cpf == nil || pq == nil {
+		return fmt.Errorf("%s: reader functions not found", cr)
+	}
+	var trims []string
+	ast.Inspect(rr, func(n ast.Node) bool {
+		if ce, ok := n.(*ast.CallExpr); ok && exprName(ce.Fun) == "bytes.TrimLeftFunc" && len(ce.Args) == 2 {
+			trims = append(trims, exprName(ce.Args[0])+" by "+exprName(ce.Args[1]))
+		}
+		return true
+	})
+	c.defStringList("csvReaderTrims", trims)
+	var keep []string
+	ast.Inspect(cpf, func(n ast.Node) bool {
+		if as, ok := n.(*ast.AssignStmt); ok && len(as.Lhs) == 1 && exprName(as.Lhs[0]) == "keep" {
+			keep = append(keep, strings.Join(strings.Fields(c.src(cr, as.Rhs[0])), " "))
+		}
+		return true
+	})
+	c.defStringList("csvParseFieldKeep", keep)
+	c.defNatList("csvParseQuotedBytes", byteLits(pq))
+
 	gdir, err := modDir(c.repo, "github.com/dolthub/go-mysql-server")
 	if err != nil {
 		return err
